@@ -35,7 +35,7 @@ func genC19(seed uint64, tier string) *Plan {
 	}
 	p.Cfg.CoalesceNanos = int64(time.Millisecond)
 	p.Cfg.Partitions = 1
-	p.Tables = []TableDef{{Name: "t0", Stream: "inbound", Fields: []FieldDef{{Name: "f0", E: &FieldExpr{Kind: "agg", Fn: "SUM", X: "x"}}}, GroupBy: []string{"da"}, ResNanos: int64(time.Second), RetNanos: int64(240 * time.Hour), MinFlush: int64(time.Millisecond), MaxFlush: int64(time.Second)}}
+	p.Tables = []TableDef{{Name: "t0", Stream: "inbound", Fields: []FieldDef{{Name: "f0", E: &FieldExpr{Kind: "agg", Fn: "SUM", X: "x"}}}, GroupBy: []string{"da"}, ResNanos: int64(time.Second), RetNanos: int64(240 * time.Hour), MinFlush: int64(time.Second), MaxFlush: int64(time.Second)}}
 	for i := 0; i < 3; i++ {
 		p.Ops = append(p.Ops, Op{K: "ins", Dt: int64(time.Millisecond), P: &Point{ID: i, Stream: "inbound", TS: -int64(i) * int64(time.Second), Dims: []KV{{"da", StrV(fmt.Sprint("k", i))}}, Vals: []KV{{"x", FloatV(float64(i + 1))}}}})
 	}
